@@ -17,7 +17,9 @@ RULE = (
     "live inventory + entries aimed at missing components; start-up/shut-down durations 0-3 so transitional states are "
     "visited) and shipped scenarios with action_masking; before every step, for EVERY entry of the action map, "
     "env.action_masks()[i] is compared with an independent dry-run of the formed request over the live request tree "
-    "(all keys exist and every validator on the path accepts); for the executed entry the mask computed at the moment "
+    "(all keys exist and every validator on the path accepts) AND with a second walk that judges every rule from the raw "
+    "state of the component it guards (power state, service/application state, interface enabled flag, live file/folder "
+    "sets) without calling the validators; for the executed entry the mask computed at the moment "
     "the request is applied is compared with where RequestManager.__call__ returned. Non-trivial = a step at which >=1 "
     "entry is masked out because a node is SHUTTING_DOWN/BOOTING or a service/application is in a transitional state; "
     "distinct by case hash."
@@ -110,6 +112,16 @@ def run_case(case: Dict) -> CaseResult:
                             f"op#{i}: entry {k} {act} {opts} is unmasked but the dry-run is stopped by {why} at depth {depth} ({detail})")
             elif not m and allowed:
                 res.violate(f"mask-overrestricts:{act}", f"op#{i}: entry {k} {act} {opts} is masked out but nothing on its path refuses it")
+            # the same entry judged from the raw state of the guarded components (the rules as documented, not the
+            # validator objects): catches a rule that reads a cache, a reported value or the wrong field
+            t_allowed, t_why, t_depth, t_detail = reqtrace.truth_run(root, req, {})
+            if t_why != "arity":
+                if m and not t_allowed:
+                    res.violate(f"mask-overpermits-vs-component-state:{act}:{t_why}:{t_detail if t_why == 'refused' else ''}",
+                                f"op#{i}: entry {k} {act} {opts} is unmasked but by the components' own state the rule {t_detail} at depth {t_depth} is not satisfied ({t_why})")
+                elif not m and t_allowed:
+                    res.violate(f"mask-overrestricts-vs-component-state:{act}:{detail if why == 'refused' else why}",
+                                f"op#{i}: entry {k} {act} {opts} is masked out ({why} {detail}) but by the components' own state every rule on its path is satisfied")
             if not allowed and why == "refused" and trans:
                 masked_for_trans = True
         if masked_for_trans:
@@ -154,6 +166,8 @@ def run_case(case: Dict) -> CaseResult:
         reqtrace.stop()
     res.nontrivial = st["nt"] >= 1
     res.extra["entries"] = st["entries"]
+    for qn in reqtrace.UNKNOWN_VALIDATORS:
+        res.label("rule_without_reference:" + qn)
     res.label("src:" + case["src"], "transitional" if st["nt"] else "no_transitional")
     return res
 
